@@ -362,7 +362,13 @@ def gen_prior_case(rng, view=None):
       lo, hi = c["elements"]
       w = hi - lo
       if rng.random() < 0.5:
-        priors.append({"name": "normal", "params": {"mean": rng.uniform(lo - 0.5 * w, hi + 0.5 * w), "scale": w * rng.choice([0.2, 0.5, 1.0, 3.0])}})
+        if rng.random() < 0.25:
+          # a prior whose mass lies far outside the bounds (mean 7-12 standard deviations away): the truncated tail
+          sc = w * rng.choice([0.2, 0.5, 1.0])
+          k = rng.uniform(7.0, 12.0)
+          priors.append({"name": "normal", "params": {"mean": (lo - k * sc) if rng.random() < 0.5 else (hi + k * sc), "scale": sc}})
+        else:
+          priors.append({"name": "normal", "params": {"mean": rng.uniform(lo - 0.5 * w, hi + 0.5 * w), "scale": w * rng.choice([0.2, 0.5, 1.0, 3.0])}})
       else:
         priors.append({"name": "beta", "params": {"shape_a": rng.choice([0.5, 0.8, 1.0, 2.0, 5.0]), "shape_b": rng.choice([0.2, 0.5, 1.0, 2.0, 3.0])}})
     else:
